@@ -64,6 +64,18 @@ def families(tier):
                         params=dict(pos=pos, kind=kind, typ=typ, place=place, ebus=ebus, epat=epat),
                         scn=dict(buses={b: dict(parallel=par) for b in names}, order=names, handlers=hs, main=main, actors=[],
                                  forwards=[('A', 'B')] if place == 'fwd_bus' else [], settle=3.0)))
+    # on a parallel_handlers bus: a handler fails while its sibling is awaiting a child (on a serial second bus) whose second handler has not started yet
+    for typ, kind in itertools.product(['ValueError', 'TimeoutError', 'Chained', 'CancelledError'], ['raise', 'pause_raise']):
+        hk, mk = KINDS[kind]
+        hs = [dict(bus='A', pat='P', name='h0', prog=mk(typ), kind=hk), dict(bus='A', pat='P', name='h1', prog=[('disp', 'B', 'C', 'await'), ('ret', 1)]),
+              dict(bus='A', pat='P', name='h2', prog=[('pause',), ('ret', 2)]),
+              dict(bus='B', pat='C', name='hc1', prog=[('pause',), ('ret', 'c1')]), dict(bus='B', pat='C', name='hc2', prog=[('ret', 'c2')]),
+              dict(bus='A', pat='X', name='hxA', prog=[('ret', 0)]), dict(bus='B', pat='X', name='hxB', prog=[('ret', 0)])]
+        main = [('disp', 'A', 'P', 'late'), ('disp', 'B', 'X', 'ff'), ('await', 'P'), ('result', 'P', False), ('result', 'P', True)]
+        for order in (['A', 'B'], ['B', 'A']):
+            out.append(dict(prop='C11', family='c11.isolation_parallel_siblings', id=f'c11/sib-{kind}-{typ}-o{"".join(order)}', cfg=cfg,
+                            params=dict(pos=0, kind=kind, typ=typ, place='root', ebus='A', epat='P'),
+                            scn=dict(buses={'A': dict(parallel=True), 'B': {}}, order=order, handlers=hs, main=main, actors=[], forwards=[], settle=3.0)))
     return out
 
 
